@@ -175,6 +175,50 @@ func main() {
 			os.Exit(rc)
 		}
 		os.Exit(runCheck(id, *tier, *verbose, *only, *workers, *noval))
+	case "replay":
+		// re-runs a stored counterexample against the natively compiled code
+		if len(os.Args) < 3 {
+			fmt.Println("usage: verif replay <path>")
+			os.Exit(2)
+		}
+		b, err := os.ReadFile(os.Args[2])
+		if err != nil {
+			fmt.Println(err)
+			os.Exit(2)
+		}
+		var j replayJob
+		if err := json.Unmarshal(b, &j); err != nil {
+			fmt.Println(err)
+			os.Exit(2)
+		}
+		for _, kf := range loadKnown().Findings {
+			if kf.Status == "open" {
+				j.Known = append(j.Known, kf.ID)
+			}
+		}
+		repoDir := "/repo"
+		if d := os.Getenv("VERIF_REPO"); d != "" {
+			repoDir = d
+		}
+		res, out, err := runNative(repoDir, filepath.Join(verifDir, "harness"), []replayJob{j})
+		if err != nil {
+			fmt.Println("replay failed to run:", err, out)
+			os.Exit(2)
+		}
+		r := res[j.ID]
+		fmt.Printf("harness=%s label=%q native end=%s fails=%v observes=%v\n", j.Harness, j.Label, r.End, r.Fails, r.Observes)
+		for _, f := range r.Fails {
+			if f == j.Label {
+				fmt.Printf("VIOLATION property=%s replay=%s\n", j.Property, os.Args[2])
+				os.Exit(1)
+			}
+		}
+		if j.Label == "no-panic" && strings.HasPrefix(r.End, "PANIC") {
+			fmt.Printf("VIOLATION property=%s replay=%s\n", j.Property, os.Args[2])
+			os.Exit(1)
+		}
+		fmt.Println("not reproduced on this tree")
+		os.Exit(0)
 	case "list":
 		for _, c := range allChecks() {
 			fmt.Println(c.ID, len(c.Harnesses), "harnesses")
